@@ -209,6 +209,11 @@ func genConditions() {
 	}
 	m.strs("reloadErrorBranches", branches, "every `if nginxReloadRes.Error != nil` statement of prepare_requests.go")
 
+	// the handler: which reload result reaches status preparation (mirrored by NGF.Model.HandlerStatus)
+	hd := src("internal/mode/static/handler.go")
+	m.strs("handleEventBatchBody", hd.stmts(hd.fn("eventHandlerImpl", "HandleEventBatch").Body), "statements of eventHandlerImpl.HandleEventBatch")
+	m.strs("updateNginxConfBody", hd.stmts(hd.fn("eventHandlerImpl", "updateNginxConf").Body), "statements of eventHandlerImpl.updateNginxConf")
+
 	// the calls of PrepareRouteRequests into prepareRouteStatus (which fields feed it)
 	var calls []string
 	for _, c := range pr.calls(pr.fn("", "PrepareRouteRequests").Body, "prepareRouteStatus") {
